@@ -150,16 +150,29 @@ package mpt
 
 // Nodes read back from the store are canonical at the top (assumed: they were written by this
 // code).
-//@ func (*Trie).getFromStore
+//@ import io github.com/nspcc-dev/neo-go/pkg/io
+//@ func (*NodeObject).DecodeBinary
 //@ assumed
-//@ pure
-//@ ensures result1 == nil ==> result0 != nil && canTop(result0) && !is(result0, *HashNode)
+//@ requires n != nil && io.validR(r)
+//@ modifies *n, r.Err, r.uv, r.r.pos
+//@ ensures io.validR(r) && old(r.r.pos) <= r.r.pos
+//@ func (*Trie).getFromStore
+//@ may-panic
+//@ opt frame off
+//@ opt callers trust
+//@ requires t != nil
+//@ ensures[canon!] result1 == nil ==> result0 != nil && canTop(result0) && !is(result0, *HashNode)
+// (C11) the count copied into an already tracked cache entry is the record's stored count: the
+// four bytes read right after skipping the one active-flag byte that follows the node encoding.
+//@ call (*BinReader).ReadU32LE requires[skipflag] ncalls("(*BinReader).ReadB") == 1 && arg0 == r
+//@ call (*BinReader).ReadB requires[reader] arg0 == r
 
 //@ func (*Trie).newSubTrie
 //@ may-panic
 //@ requires t != nil && t.refcount != nil
 //@ opt frame off
 //@ opt callers trust
+//@ ensures[counted] ncalls("(*Trie).addRef") == ite(newVal, 1, 0) + ite(len(path) != 0, 1, 0)
 //@ ensures[plain] len(path) == 0 ==> result == val
 //@ ensures[ext] len(path) != 0 ==> is(result, *ExtensionNode) && result.(*ExtensionNode) != nil && fresh(result.(*ExtensionNode)) && same(result.(*ExtensionNode).key, path) && result.(*ExtensionNode).next == val
 
@@ -246,6 +259,9 @@ package mpt
 //@ opt callers trust
 //@ opt stable t.refcount
 //@ requires t != nil && t.refcount != nil
+// (C11) the child of the split extension is only moved under a shorter extension: it is in the
+// trie already and gets no new reference.
+//@ call newSubTrie requires[moved] arg2 == next && !arg3
 //@ ensures[canon] result2 == nil ==> result0 != nil && canTop(result0)
 
 // An extension that receives a batch is always rebuilt: its own reference is released
